@@ -127,6 +127,14 @@ func (c *C19) Init(tier string, worker, nworkers int, seed uint64) error {
 	}
 	for _, d := range []dims{pick(rollup.Insertion), pick(rollup.Deletion)} {
 		path := filepath.Join(dir, fmt.Sprintf("%s-%d-%d.ps", d.mode, d.depth, d.batch))
+		stale := worker%3 == 1
+		if stale {
+			// history: the output path already holds an older, larger keys file (a previous setup for bigger
+			// dimensions written to the same path); the new setup must replace it, not write into it
+			if err := os.WriteFile(path, bytes.Repeat([]byte{0xAB, 0x01, 0x00, 0xFF}, 40<<20), 0o644); err != nil {
+				return err
+			}
+		}
 		r := ops.Run(ops.Cmd{Args: []string{"setup", "--mode", d.mode, "--tree-depth", strconv.Itoa(d.depth), "--batch-size", strconv.Itoa(d.batch), "--output", path},
 			RandSeed: fmt.Sprintf("setup-%s-%d-%d", d.mode, d.depth, d.batch)})
 		if r.Exit != 0 {
@@ -134,7 +142,19 @@ func (c *C19) Init(tier string, worker, nworkers int, seed uint64) error {
 		}
 		ps, err := prover.ReadSystemFromFile(path)
 		if err != nil {
-			return fmt.Errorf("reference load of %s: %w", path, err)
+			// `setup` reported success and the same tree cannot load what it wrote: the pipeline does not compose.
+			// The harness needs a loaded system to go on, so this worker reports the problem in every run.
+			c.initProblem = fmt.Sprintf("`gnark-mbu setup --mode %s --tree-depth %d --batch-size %d --output <path>` exited 0 (output path held an older, larger file: %v), but the keys file it wrote does not load: %v", d.mode, d.depth, d.batch, stale, err)
+			c.keys = append(c.keys, &cliKeys{sys: &gtier.System{Mode: d.mode, Depth: d.depth, Batch: d.batch}, path: path})
+			continue
+		}
+		if stale {
+			var ref bytes.Buffer
+			if _, err := ps.WriteRawTo(&ref); err == nil {
+				if fi, err := os.Stat(path); err == nil && fi.Size() != int64(ref.Len()) {
+					c.initProblem = fmt.Sprintf("`gnark-mbu setup` over an existing larger file left %d bytes at the output path; the system it describes serialises to %d bytes (stale tail of the older file kept)", fi.Size(), ref.Len())
+				}
+			}
 		}
 		if ps.TreeDepth != uint32(d.depth) || ps.BatchSize != uint32(d.batch) {
 			// the pipeline does not compose: `setup` wrote a file that reads back as another system
